@@ -325,7 +325,9 @@ def mem_classes(rnd):
     def add(name, mn, w, kwmode, fn, **kw):
         C.append(dict(name=name, mn=mn, w=w, kwmode=kwmode, fn=fn, **kw))
 
-    regs = {8: ["cl", "r9b", "dh", "sil"], 16: ["cx", "r9w"], 32: ["ecx", "r9d"], 64: ["rcx", "r9"]}
+    # the register operand ranges over EVERY register of the width (the deterministic sweep in gen_mem reaches each member under
+    # four fixed shapes; the sampled shapes pick members at random)
+    regs = {8: R8 + R8H, 16: list(R16), 32: list(R32), 64: list(R64)}
     for w in (8, 16, 32, 64):
         for reg in regs[w]:
             for mn in ALU + ["mov"]:
@@ -547,6 +549,29 @@ def gen_imm(rnd, full=False):
                     t = "%s %s %s, %s" % (mn, KW[w], M, txt)
                     return t, t, [mem_exp(w, base, index, scale, disp), I(v)]
                 emit("imm_mi", mn, "mi", w, kindm, b, base=base, index=index)
+    # every destination register of every width, and further memory destinations, under a reduced value set (the boundaries only)
+    vals_all = vals
+    vals = sorted(set(v for v in vals_all if abs(v) in (0, 1, 0x7f, 0x80, 0x81, 0xff, 0x100, 0x7fff, 0x8000, 0xffff, 0x10000, 0x7fffffff, 0x80000000, 0xffffffff, 0x100000000, 2**63, 2**64 - 1)))
+    more_mems = [("rbx", "rcx", 8, 0x11223344), ("ebx", "ecx", 2, 0x10), ("r12", None, None, None), ("r13", None, None, None), ("rsp", None, None, 8), ("rbp", "r9", 4, -0x80),
+                 (None, None, None, 0x1000), (None, "r10", 4, 0x100)]
+    for mn in ALU + ["mov", "test"]:
+        for w in (8, 16, 32, 64):
+            kind = ("mov64" if (mn == "mov") else "sx32") if w == 64 else "w"
+            for reg in (R8 + R8H if w == 8 else BYW[w]):
+                if reg in regsets[w]:
+                    continue
+                def b(txt, v, mn=mn, reg=reg):
+                    t = "%s %s, %s" % (mn, reg, txt)
+                    return t, t, [R(reg), I(v)]
+                emit("imm_ri", mn, "ri", w, kind, b, reg=reg, acc=(regnum(reg) == 0))
+            kindm = "sx32" if w == 64 else "w"
+            for (base, index, scale, disp) in more_mems:
+                M = render_mem(base, index, scale, "si" if (index and not base) else "is", disp)
+                def b(txt, v, mn=mn, w=w, M=M, base=base, index=index, scale=scale, disp=disp):
+                    t = "%s %s %s, %s" % (mn, KW[w], M, txt)
+                    return t, t, [mem_exp(w, base, index, scale, disp), I(v)]
+                emit("imm_mi", mn, "mi", w, kindm, b, base=base, index=index)
+    vals = vals_all
     for w in (16, 32, 64):
         for reg in regsets[w][:2] + [regsets[w][-1]]:
             def b(txt, v, reg=reg):
